@@ -3,7 +3,7 @@ CONSTANTS
   Keys <- K4
   Vals = {1}
   MaxLevels = {1, 2, 5}
-  RichKeys <- Keys
+  RichKeys <- RichAll
   MaxCommits = 2
   Log <- LogLast
   Depth = 0
